@@ -148,8 +148,8 @@ def render_msg(m: Message) -> str:
 # ---- running a history on the implementation --------------------------------------------------
 
 
-def build_gateway(h: Hist):
-    tr = FaultTransport()
+def build_gateway(h: Hist, transport: Transport | None = None):
+    tr = FaultTransport() if transport is None else transport
     gw = Gateway(tr, Config(metric=h.metric))
     if h.version is not None:
         gw.protocol_version = h.version
